@@ -85,7 +85,13 @@ class C20(object):
             yield c
 
     def rand_comp(self, rng, dim):
-        style = rng.choice(['uniform', 'random', 'dyadic', 'wide', 'wide'])
+        style = rng.choice(['uniform', 'random', 'dyadic', 'wide', 'wide', 'tiny'])
+        if style == 'tiny':
+            # entries whose product underflows a double although every logarithm is finite
+            w = [Fraction(10) ** rng.randint(-80, -50) * rng.randint(1, 9) for _ in range(dim)]
+            w[rng.randrange(dim)] = Fraction(1)
+            tot = sum(w)
+            return [v / tot for v in w]
         if style == 'uniform':
             return [Fraction(1, dim)] * dim
         if style == 'dyadic':
@@ -141,6 +147,19 @@ class C20(object):
                 ds = list(dit.simplex_grid(k, m))
                 if len(ds) != want or any(abs(float(np.sum(d.pmf)) - 1) > 1e-12 for d in ds):
                     r.oracle_fail = 'simplex_grid(%d,%d) with distributions: wrong count or unnormalised' % (k, m)
+            # the in-place form, and two grids alive at the same time (all pairs of grid points)
+            if not r.oracle_fail and want <= 40:
+                seq = [tuple(int(round(v * m)) for v in d.pmf) for d in dit.simplex_grid(k, m, inplace=True)]
+                if sorted(seq) != nums:
+                    r.oracle_fail = 'simplex_grid(%d,%d, inplace=True) does not enumerate the grid' % (k, m)
+                else:
+                    pairs = []
+                    for a_ in dit.simplex_grid(k, m, inplace=True):
+                        for b_ in dit.simplex_grid(k, m, inplace=True):
+                            pairs.append((tuple(int(round(v * m)) for v in a_.pmf), tuple(int(round(v * m)) for v in b_.pmf)))
+                    if sorted(pairs) != sorted((a_, b_) for a_ in nums for b_ in nums):
+                        r.oracle_fail = ('two simplex_grid(%d,%d, inplace=True) generators alive at once do not enumerate all '
+                                         'pairs of grid points (%d pairs, %d distinct)' % (k, m, len(pairs), len(set(pairs))))
             return r
 
         x = np.array([float(Fraction(v)) for v in case['x']])
